@@ -405,7 +405,11 @@ class Rates(Harness):
             a, b = sorted((rng.uniform(SLO, SHI), rng.uniform(SLO, SHI)))
             bad = _float_rates(cfg, a, b, L)
             if bad:
-                raise AssertionError('float oracle fails: %r %r' % (cfg, bad))
+                from pysym.runner import ConcreteViolation
+                raise ConcreteViolation(
+                    'C16/%s/float-oracle:%s' % (cfg['kind'], '+'.join(
+                        sorted({str(b).split(':')[0] for b in bad}))[:80]),
+                    dict(cfg=cfg, snr=(a, b), L=L, failed=str(bad)[:400]))
             n += 1
         # sampled decay: the rates vanish for growing SNR
         m = _build(cfg['kind'], cfg['M'], cfg.get('offset'))
@@ -488,8 +492,28 @@ class Constellation(Harness):
             a = rng.uniform(SLO, SHI)
             bad = _float_rates(dict(cfg, shape='scalar'), a, a, 1)
             if bad:
-                raise AssertionError('float oracle fails: %r %r' % (cfg, bad))
+                from pysym.runner import ConcreteViolation
+                raise ConcreteViolation(
+                    'C16/%s/float-oracle:%s' % (cfg['kind'], '+'.join(
+                        sorted({str(b).split(':')[0] for b in bad}))[:80]),
+                    dict(cfg=cfg, snr=a, failed=str(bad)[:400]))
             n += 1
+        # the curve of one modulator must not depend on which other
+        # modulators were used before in the same process
+        if cfg['kind'] in ('PSK', 'QAM') and cfg['M'] in (16, 64, 256):
+            other = 'QAM' if cfg['kind'] == 'PSK' else 'PSK'
+            mo = _build(other, cfg['M'], None)
+            mo.calcTheoreticalSER(3.0)
+            mo.calcTheoreticalBER(3.0)
+            for a in (0.0, 7.5, 20.0):
+                bad = _float_rates(dict(cfg, shape='scalar'), a, a, 1)
+                if bad:
+                    from pysym.runner import ConcreteViolation
+                    raise ConcreteViolation(
+                        'C16/%s/depends-on-previously-used-modulator' %
+                        cfg['kind'], dict(cfg=cfg, snr=a, after=other,
+                                          failed=str(bad)[:400]))
+                n += 1
         return n
 
 
